@@ -550,6 +550,11 @@ func (s *Scheme) Sign(c context.Context, msgHash []byte, topic string) ([]byte, 
 			}
 			cleanupSyncTopic()
 			cleanup()
+			// The continuation did not run, so nobody else reports to the caller
+			resultChan <- struct {
+				sig []byte
+				err error
+			}{err: err}
 		}
 	}
 
